@@ -42,73 +42,108 @@ def extract(g, X):
         return BITS[m.group(1)]
 
     def max_id():
-        m = re.search(r"pub\s+const\s+MAX_ID\s*:\s*u32\s*=\s*([0-9_xa-fA-F]+)\s*;", backend)
-        return str(X.lit(m.group(1)))
+        return str(X.int_value(X.const_expr(backend, "MAX_ID")))
     g.attempt([("xr_max_id", "N")], "backend.rs:MAX_ID", max_id)
+
+    B, iv = X.BYTE, X.int_value
 
     def header():
         b = X.fn_body(backend, "locate_start_offset")
-        h = re.search(r"const\s+HEADER\s*:\s*&\[u8\]\s*=\s*(b\"[^\"]*\")\s*;", b)
-        w = re.search(r"self\.read\(\s*\.\.\s*std::cmp::min\(\s*(\d[\d_]*)\s*,\s*self\.len\(\)\s*\)\s*\)", b)
-        if not re.search(r"\.windows\(HEADER\.len\(\)\)\s*\.position\(\|window\|\s*window\s*==\s*HEADER\)", b):
+        h = X.byte_string("HEADER", b, backend)
+        # the search window: min(N, self.len()) in any spelling, used (directly or through a local) as the end of the read
+        (w,) = [cap for _, cap in X.min_consts(b, r"self\.len\(\)")]
+        if not re.search(r"\.windows\(\s*HEADER\.len\(\)\s*\)\s*\.position\(\s*\|(\w+)\|\s*\1\s*==\s*HEADER\s*\)", b):
             raise ValueError("search is no longer windows().position(== HEADER)")
-        return cl(bstr(h.group(1))), str(X.lit(w.group(1)))
+        return cl(h), str(w)
     g.attempt([("xr_header", "list N"), ("xr_header_window", "N")], "backend.rs:locate_start_offset", header)
 
     def startxref():
         b = X.fn_body(backend, "locate_xref_offset")
-        k = re.search(r"seek_substr_back\(\s*(b\"[^\"]*\")\s*\)", b)
+        k = re.search(r"seek_substr_back\(\s*(b\"[^\"]*\"|&?\[[^\]]*\]|\w+)\s*\)", b)
         e = re.search(r"set_pos_from_end\(\s*(\d+)\s*\)", b)
         t = re.search(r"\.to::<(\w+)>\(\)", b)
-        return cl(bstr(k.group(1))), str(X.lit(e.group(1))), str(alias_bits(t.group(1)))
+        return cl(X.byte_string(k.group(1), b, backend)), str(iv(e.group(1))), str(alias_bits(t.group(1)))
     g.attempt([("xr_startxref_kw", "list N"), ("xr_from_end", "N"), ("xr_startxref_bits", "N")],
               "backend.rs:locate_xref_offset", startxref)
 
     def newtab():
         b = X.fn_body(xref, "new")
-        m = re.search(r"entries\.push\(\s*XRef::Free\s*\{\s*next_obj_nr\s*:\s*([0-9a-fA-Fx_]+)\s*,\s*gen_nr\s*:\s*([0-9a-fA-Fx_]+)\s*\}\s*\)", b)
-        if not re.search(r"entries\.resize\(\s*num_objects\s+as\s+usize\s*,\s*XRef::Invalid\s*\)", b):
+        (n,) = X.fn_params(xref, "new")
+        m = re.search(r"\w+\.push\(\s*XRef::Free\s*\{\s*next_obj_nr\s*:\s*(" + B + r")\s*,\s*gen_nr\s*:\s*(" + B + r")\s*,?\s*\}\s*\)", b)
+        # `num_objects` invalid entries in front of it: Vec::new + resize, or vec![Invalid; n]
+        if not (re.search(r"\w+\.resize\(\s*" + n + r"\s+as\s+usize\s*,\s*XRef::Invalid\s*\)", b) or
+                re.search(r"vec!\[\s*XRef::Invalid\s*;\s*" + n + r"\s+as\s+usize\s*\]", b)):
             raise ValueError("resize(num_objects, Invalid) not found")
-        return str(X.lit(m.group(1))), str(X.lit(m.group(2)))
+        return str(iv(m.group(1))), str(iv(m.group(2)))
     g.attempt([("xr_new_free_next", "N"), ("xr_new_free_gen", "N")], "xref.rs:XRefTable::new", newtab)
 
     def codes():
         b = X.fn_body(pxr, "parse_xref_section_from_stream")
         kinds = {"Free": 0, "Raw": 1, "Stream": 2}
+        ws = re.search(r"let\s*\[\s*(\w+)\s*,\s*(\w+)\s*,\s*(\w+)\s*\]", b).groups()
+        # the type field: `let T = if w0 == 0 { D } else { read(w0) }`; the two other fields: `let F = read(w1|w2)`
+        d = re.search(r"let\s+(\w+)\s*=\s*if\s+" + ws[0] + r"\s*==\s*0\s*\{\s*(" + B + r")\s*\}\s*else\s*\{\s*read_u64_from_stream\(\s*" + ws[0] + r"\s*,", b)
+        field = {}
+        for m in re.finditer(r"let\s+(\w+)\s*=\s*read_u64_from_stream\(\s*(\w+)\s*,", b):
+            if m.group(2) in ws[1:]:
+                field[m.group(1)] = ws.index(m.group(2))
         out = []
-        for m in re.finditer(r"(\d+)\s*=>\s*XRef::(\w+)\s*\{\s*(\w+)\s*:\s*(field\d)[^,]*,\s*(\w+)\s*:\s*(field\d)", b):
-            out.append((int(m.group(1)), kinds[m.group(2)], int(m.group(4)[-1]), int(m.group(6)[-1])))
+        for arm in X.match_arms(b, re.escape(d.group(1))):
+            m = re.fullmatch(r"XRef::(\w+)\s*\{\s*(\w+)\s*:\s*(\w+)[^,]*,\s*(\w+)\s*:\s*(\w+)[^,}]*,?\s*\}", arm.expr)
+            if m and arm.guard is None and all(re.fullmatch(B, p) for p in arm.pats):
+                for p in arm.pats:
+                    out.append((iv(p), kinds[m.group(1)], field[m.group(3)], field[m.group(5)]))
         if len(out) != 3:
             raise ValueError("expected three entry kinds, found %d" % len(out))
-        d = re.search(r"let\s+_type\s*=\s*if\s+w0\s*==\s*0\s*\{\s*(\d+)\s*\}", b)
-        return X.ctuples(out), str(X.lit(d.group(1)))
+        return X.ctuples(X.ordered_by_key(out)), str(iv(d.group(2)))
     g.attempt([("xr_type_codes", "list (N * N * N * N)"), ("xr_default_type", "N")],
               "parse_xref.rs:parse_xref_section_from_stream", codes)
 
     def width():
         b = X.fn_body(pxr, "read_u64_from_stream")
-        m = re.search(r"if\s+width\s*>\s*std::mem::size_of::<(\w+)>\(\)", b)
-        s = re.search(r"let\s+base\s*=\s*(\d+)\s*\*\s*i\s*;", b)
-        return str(BITS[m.group(1)] // 8), str(X.lit(s.group(1)))
+        (wd,) = X.fn_params(pxr, "read_u64_from_stream")[:1]
+        m = re.search(r"if\s+" + wd + r"\s*>\s*(?:std::)?mem::size_of::<(\w+)>\(\)", b)
+        i = re.search(r"for\s+(\w+)\s+in\s+\(\s*0\s*\.\.\s*" + wd + r"\s*\)\.rev\(\)", b).group(1)
+        s = re.search(r"(" + B + r")\s*\*\s*" + i + r"\b", b) or re.search(r"\b" + i + r"\s*\*\s*(" + B + r")", b)
+        return str(BITS[m.group(1)] // 8), str(iv(s.group(1)))
     g.attempt([("xr_u64_width", "N"), ("xr_byte_bits", "N")], "parse_xref.rs:read_u64_from_stream", width)
 
     def tablekw():
         b = X.fn_body(pxr, "parse_xref_table_and_trailer")
-        tr = re.search(r"while\s+lexer\.peek\(\)\?\s*!=\s*\"(\w+)\"", b)
-        tr2 = re.search(r"if\s+w1\s*==\s*\"(\w+)\"", b)
-        tr3 = re.search(r"lexer\.next_expect\(\"(\w+)\"\)", b)
-        if not (tr.group(1) == tr2.group(1) == tr3.group(1)):
+        tr = re.search(r"while\s+(\w+)\.peek\(\)\?\s*!=\s*\"(\w+)\"", b)
+        lex = tr.group(1)
+        words = re.findall(r"let\s+(\w+)\s*=\s*t!\(\s*" + lex + r"\.next\(\)\s*\)\s*;", b)
+        if len(words) != 3:
+            raise ValueError("an entry is no longer read as three words")
+        w1, w2, w3 = words
+        tr2 = re.search(r"if\s+" + w1 + r"\s*==\s*\"(\w+)\"", b)
+        tr3 = re.search(lex + r"\.next_expect\(\s*\"(\w+)\"\s*\)", b)
+        if not (tr.group(2) == tr2.group(1) == tr3.group(1)):
             raise ValueError("the three trailer keywords differ")
-        f = re.search(r"if\s+w3\s*==\s*\"(\w+)\"\s*\{\s*section\.add_free_entry\(t!\(w1\.to::<(\w+)>\(\)\)\s*,\s*t!\(w2\.to::<(\w+)>\(\)\)\)", b)
-        n = re.search(r"else\s+if\s+w3\s*==\s*\"(\w+)\"\s*\{\s*section\.add_inuse_entry\(t!\(w1\.to::<(\w+)>\(\)\)\s*,\s*t!\(w2\.to::<(\w+)>\(\)\)\)", b)
-        hdr = re.findall(r"let\s+(?:start_id|num_ids)\s*=\s*t!\(lexer\.next_as::<(\w+)>\(\)\)", b)
+
+        def entry(head, method):
+            m = re.search(head + r"\s+" + w3 + r"\s*==\s*\"(\w+)\"\s*\{", b)
+            blk = X.item_body(b[m.start():], r"\{", "entry block")
+            call = re.search(r"\w+\." + method + r"\(", blk)
+            o = call.end() - 1
+            args = X.split_top(blk[o + 1:X.close_of(blk, o)], ",")
+            ts = []
+            for arg, w in zip(args, (w1, w2)):
+                mm = re.fullmatch(r"t!\(\s*" + w + r"\.to::<(\w+)>\(\)\s*\)", X.deref(arg, blk))
+                ts.append(mm.group(1))
+            if len(ts) != 2:
+                raise ValueError(method + " arguments")
+            return m.group(1), ts
+        fk, ft = entry(r"\bif", "add_free_entry")
+        nk, nt = entry(r"\belse\s+if", "add_inuse_entry")
+        hdr = re.findall(r"let\s+\w+\s*=\s*t!\(\s*" + lex + r"\.next_as::<(\w+)>\(\)\s*\)", b)
         if len(hdr) != 2:
             raise ValueError("subsection header reads changed")
         b2 = X.fn_body(pxr, "read_xref_and_trailer_at")
-        x = re.search(r"if\s+next_word\s*==\s*\"(\w+)\"", b2)
-        return (cl(strs(tr.group(1))), cl(strs(f.group(1))), cl(strs(n.group(1))), cl(strs(x.group(1))),
+        x = re.search(r"let\s+(\w+)\s*=\s*t!\(\s*\w+\.next\(\)\s*\)\s*;\s*if\s+\1\s*==\s*\"(\w+)\"", b2)
+        return (cl(strs(tr.group(2))), cl(strs(fk)), cl(strs(nk)), cl(strs(x.group(2))),
                 str(alias_bits(hdr[0])), str(alias_bits(hdr[1])),
-                str(alias_bits(f.group(2))), str(alias_bits(f.group(3))), str(alias_bits(n.group(2))), str(alias_bits(n.group(3))))
+                str(alias_bits(ft[0])), str(alias_bits(ft[1])), str(alias_bits(nt[0])), str(alias_bits(nt[1])))
     g.attempt([("xr_kw_trailer", "list N"), ("xr_kw_f", "list N"), ("xr_kw_n", "list N"), ("xr_kw_xref", "list N"),
                ("xr_bits_first", "N"), ("xr_bits_count", "N"), ("xr_bits_free_next", "N"), ("xr_bits_free_gen", "N"),
                ("xr_bits_pos", "N"), ("xr_bits_gen", "N")], "parse_xref.rs:parse_xref_table_and_trailer", tablekw)
